@@ -618,7 +618,7 @@ def anomalous_newick(rng, t, k_anom, top=True, state=None):
         r = rng.random()
         if state["left"] > 0:
             state["left"] -= 1
-            s += rng.choice(["", ";;", ";x", "; (a,b);", ")", "));", "(", ";[c]", " ;", "[c", ":;", ",;"])
+            s += rng.choice(["", ";;", ";x", "; (a,b);", ")", "));", "(", ";[c]", " ;", "[c", ":;", ",;", ")(Z;", ")(Z,Y;", "))((Z,Y),W;"])
         else:
             s += ";"
     return s
@@ -649,6 +649,12 @@ def anomaly_cases(rng, tier):
     if tier != "search":
         for perm in suffix_orders(3)[26:]:
             out.append(case("newick", "(A:1,B:2,)" + "".join(SUFFIX[x] for x in perm) + ";", "anomaly:root-suffix3/last"))
+    # text after the outermost ')' was closed: k extra ')' and then a new, unclosed or closed, group (the reader then starts a
+    # second root whose node ids go on from the abandoned first tree)
+    for first in ["(a)", "(a,b)", "((a,b),c)", "(a:1,b:2)x:3"]:
+        for k in (1, 2):
+            for tail in ["(b;", "(b,c;", "((c,d),e;", "(c:1,d:2;", "(b);", "(c,d);", ",(c,d);", "b;", ";", "(", "(b", "(b;(c,d);"]:
+                emit(first + ")" * k + tail, "reopened")
     # random trees with 2..4 composed anomalies
     for _ in range({"quick": 220, "thorough": 20000, "search": 120}[tier]):
         t = rand_tree(rng, lo=2, hi=8)
